@@ -682,6 +682,20 @@ func c02Tables(c *vlib.Ctx, ck *Checker[c02Case]) {
 		cells = append(cells, cell{CfgLit{Origins: []string{org}, Methods: []string{mn}, RequestHeaders: []string{strings.ToUpper(hn)}}, ins},
 			cell{CfgLit{Origins: []string{org}, Credentialed: true, Methods: []string{"PUT", mn}, RequestHeaders: []string{"X-A", hn, "X-Zz"}}, ins})
 	}
+	// labels of 62, 63 (the maximum) and 64 bytes in every position of a four-label host, as an exact pattern and
+	// below a wildcard pattern
+	for _, n := range []int{1, 62, 63, 64} {
+		lab := strings.Repeat("l", n)
+		for pos := 0; pos < 4; pos++ {
+			labels := []string{"api", "svc", "example", "com"}
+			labels[pos] = lab
+			host := strings.Join(labels, ".")
+			ins := []ref.Intent{{Origin: "https://" + host, Method: "GET"}, {Origin: "https://" + host, Method: "PUT", Headers: []string{"x-a"}}, {Origin: "https://x." + host, Method: "GET"},
+				{Origin: "https://" + host + ":8443", Method: "GET"}, {Origin: "http://" + host, Method: "GET"}, {Origin: "https://" + host + ".", Method: "GET"}}
+			cells = append(cells, cell{CfgLit{Origins: []string{"https://" + host}, Methods: []string{"PUT"}, RequestHeaders: []string{"X-A"}}, ins},
+				cell{CfgLit{Origins: []string{"https://*." + strings.Join(labels[1:], "."), "http://" + host + ":*"}, Credentialed: true, TolInsecure: true, TolPSL: true, Methods: []string{"PUT"}, RequestHeaders: []string{"X-A"}}, ins})
+		}
+	}
 	// one host under several schemes with different port sets, in every order of two and three patterns
 	sp := []string{"https://a.example", "http://a.example:8080", "https://a.example:9", "http://a.example", "ws://a.example:8080", "https://*.a.example:8080", "http://*.a.example"}
 	var spIntents []ref.Intent
